@@ -18,6 +18,7 @@ def run(chk, replay=None):
     # witnesses of nested sum / product type that are only partly inspected (the node type is smaller than the declared type)
     progs += corelib.partial_witness_programs(chk, 60 if quick else 1500, "pw")
     progs += corelib.effect_programs()
+    progs += corelib.literal_programs(chk)
     rejected = []
     acc = corelib.check_terms(chk, progs, on_reject=lambda g, a: rejected.append((g, a)))
     for g, a in rejected:
